@@ -6,8 +6,11 @@ Driver for C14 (protocol of harness/props/c14):
   T <n> <term>*n                     one ascending key, n rows
   K <dirs> <nrows> <nkeys> <cell>*   dirs ∈ {A,D}*, cell = term | `-` (unbound)
   S <A|D> <n> <term>*n               big sort
+  M <dirs> <nrows> <nkeys> <limit|-> <offset> <cell>*   big multi-key sort (classification only)
+  X <P|B|S> <n> <term>*n             one key that is not a plain variable: `?k + 0`, BIND(?k * 1 AS ?b), STR(?k);
+                                     reply `o.xv=`: the order SPARQL's `<` gives the key values (oracle only)
 Replies: `m=` the rows×rows matrix of outcome letters predicted by `cmpBindingsWith` for the
-observable of the harness (l/g/e/x, `?` when a value panics), `hv=`/`vc=` the value probes
+observable of the harness (l/g/e/x, `?` when the comparison panics; `pp=` counts those cells), `hv=`/`vc=` the value probes
 (`tryFromTerm`, `SparqlValue.partialCmp`), and a classification of the triples on which the
 comparator is not a preorder (used by the known-finding predicates).
 -/
@@ -38,7 +41,7 @@ def rowPanics (r : Row) : Bool := r.any (fun c => match c with | some t => panic
 /-- the observable of the harness for the ordered pair (x, y): is `cmp(x, y) = Less` with the given
 flags, and with all flags flipped -/
 def letter (dirs : List Bool) (x y : Row) : Char :=
-  if rowPanics x || rowPanics y then '?' else
+  if rowPanics x || rowPanics y || cmpBindingsPanics (rowBinding x) (rowBinding y) (criteria dirs) then '?' else
   let c1 := cmpBindingsWith (rowBinding x) (rowBinding y) (criteria dirs)
   let c2 := cmpBindingsWith (rowBinding x) (rowBinding y) (criteria (dirs.map (!·)))
   match c1 == .lt, c2 == .lt with
@@ -54,7 +57,7 @@ def hvChar (t : Term) : Char :=
   if panics t then 'P' else if (tryFromTerm t).isSome then '1' else '0'
 
 def vcChar (a b : Term) : Char :=
-  if panics a || panics b then 'P' else
+  if panics a || panics b || sparqlCmpPanics a b then 'P' else
   match tryFromTerm a, tryFromTerm b with
   | some x, some y => ordLetter (x.partialCmp y)
   | _, _ => '-'
@@ -73,24 +76,17 @@ structure Counts where
   mixed : Nat := 0
   numtie : Nat := 0
   other : Nat := 0
+  /-- rows taking part in some violating triple -/
+  bad : Array Bool := #[]
 
 def le (c : Char) : Bool := c == 'l' || c == 'e'
-
-/-- rank of a key value for the kind-order clause (`none` = not ranked: quoted triples, variables) -/
-def kindRank : Option Term → Option Nat
-  | none => some 0
-  | some (.bnode _) => some 1
-  | some (.iri _) => some 2
-  | some (.lit _ _) => some 3
-  | some (.lang _ _) => some 3
-  | _ => none
 
 /-- same triple laws as `matrix_laws` of the harness, plus the classification:
 `mixed`  – the three pairs are not all compared the same way (value vs `Term::cmp` fallback);
 `numtie` – three numbers, all pairs compared by value, not all of one exactness class;
 `other`  – anything else (never seen; would be a new defect) -/
 def classify (n : Nat) (m : Array Char) (bv : Array Bool) (nc : Array Nat) : Counts := Id.run do
-  let mut c : Counts := {}
+  let mut c : Counts := { bad := Array.replicate n false }
   let cell (i j : Nat) : Char := m[i * n + j]!
   for i in [0:n] do
     for j in [0:n] do
@@ -104,6 +100,7 @@ def classify (n : Nat) (m : Array Char) (bv : Array Bool) (nc : Array Nat) : Cou
         if isCyc && !(i < j && i < k) then continue
         if isCyc || isTr then
           if isCyc then c := { c with cyc := c.cyc + 1 } else c := { c with tr := c.tr + 1 }
+          c := { c with bad := ((c.bad.set! i true).set! j true).set! k true }
           let v1 := bv[i * n + j]!
           let v2 := bv[j * n + k]!
           let v3 := bv[i * n + k]!
@@ -158,12 +155,53 @@ def matrixReply (dirs : List Bool) (rows : List Row) (probes : Bool) : String :=
     let base := [kvN "n" n, kv "m" (String.ofList m.toList), kv "o.ko" (String.ofList ko)]
     let vc := ts.flatMap (fun a => ts.map (fun b => vcChar a b))
     -- oracle: where SPARQL's comparison of the two values is defined, ORDER BY uses that outcome
-    let mv := vc.map (fun c => if c == 'l' || c == 'e' || c == 'g' then c else '.')
+    -- (strict outcomes only: the property does not say how values that are `=` are arranged)
+    let mv := vc.map (fun c => if c == 'l' || c == 'g' then c else '.')
     let pr := if probes then
         [kv "hv" (String.ofList (ts.map hvChar)), kv "vc" (String.ofList vc), kv "o.mv" (String.ofList mv)]
       else []
+    let pp := (m.toList.filter (· == '?')).length
     reply (base ++ pr ++ [kvN "cyc" c.cyc, kvN "tr" c.tr, kvN "mixed" c.mixed, kvN "numtie" c.numtie,
-      kvN "other" c.other])
+      kvN "other" c.other, kvN "pp" pp, kv "badix" (String.ofList (c.bad.toList.map (fun b => if b then '1' else '0')))])
+
+/-! ### X requests: keys that are not plain variables (oracle only) -/
+
+def ordChar : Ordering → Char
+  | .lt => 'l' | .eq => 'e' | .gt => 'g'
+
+/-- the value of the key expression: `?k + 0` / `?k * 1` keep a number and are an error (unbound key) on
+everything else; `STR(?k)` is the lexical form of a literal, the IRI of an IRI, an error otherwise -/
+inductive XKey where
+  | unbound
+  | num (n : SparqlNumber)
+  | str (s : Str)
+
+def xkey (strMode : Bool) (t : Term) : XKey :=
+  if strMode then
+    match t with
+    | .iri s => .str s
+    | .lit lex _ => .str lex
+    | .lang lex _ => .str lex
+    | _ => .unbound
+  else
+    match tryFromTerm t with
+    | some (.number n) => .num n
+    | _ => .unbound
+
+/-- what the property demands for the ordered pair: unbound first (all unbound equal), then SPARQL's `<` on
+the values; `.` where `<`, `=`, `>` are all false (NaN) -/
+def xExpected : XKey → XKey → Char
+  | .unbound, .unbound => 'e'
+  | .unbound, _ => 'l'
+  | _, .unbound => 'g'
+  | .num a, .num b => match a.partialCmp b with | some o => ordChar o | none => '.'
+  | .str a, .str b => ordChar (strCmp a b)
+  | _, _ => '.'
+
+def xReply (strMode : Bool) (ts : List Term) : String :=
+  let ks := ts.map (xkey strMode)
+  if !strMode && oodDecimal ts then "skip=ood" else
+  reply [kvN "n" ts.length, kv "o.xv" (String.ofList (ks.flatMap (fun a => ks.map (fun b => xExpected a b))))]
 
 def parseDirs (s : String) : Option (List Bool) :=
   s.toList.mapM (fun c => if c == 'A' then some false else if c == 'D' then some true else none)
@@ -189,6 +227,26 @@ def handle (line : String) : String :=
         let rows := (List.range nr).map (fun i => (cells.drop (i * nk)).take nk)
         matrixReply dirs rows false
     | _, _, _ => "bad-op"
+  | "X" :: md :: ns :: rest =>
+    match (if md == "P" || md == "B" then some false else if md == "S" then some true else none), ns.toNat? with
+    | some strMode, some n =>
+      match parseCells n rest with
+      | none => "bad-hex"
+      | some (cells, _) =>
+        if n < 2 || cells.any Option.isNone then "bad-op" else xReply strMode (cells.filterMap id)
+    | _, _ => "bad-op"
+  | "M" :: ds :: nrs :: nks :: lim :: offs :: rest =>
+    match parseDirs ds, nrs.toNat?, nks.toNat?, offs.toNat? with
+    | some dirs, some nr, some nk, some _ =>
+      if dirs.length != nk || nk == 0 || nr < 2 || !(lim == "-" || lim.toNat?.isSome) then "bad-op" else
+      match parseCells (nr * nk) rest with
+      | none => "bad-hex"
+      | some (cells, _) =>
+        let rows := (List.range nr).map (fun i => (cells.drop (i * nk)).take nk)
+        let r := matrixReply dirs rows false
+        if r.startsWith "skip" then r else
+        reply ((fields r).filter (fun f => !(f.startsWith "m=") && !(f.startsWith "o.")))
+    | _, _, _, _ => "bad-op"
   | "S" :: d :: ns :: rest =>
     match (if d == "A" then some false else if d == "D" then some true else none), ns.toNat? with
     | some desc, some n =>
